@@ -36,7 +36,13 @@ def gen_case(rng):
                                   ["ramp", "ua", "sine"], subs=subs, waits=True)
     decl = {}
     for c in chans:
-        if rng.random() < 0.65:
+        if rng.random() < 0.3:
+            # an earlier declaration that the later one must replace completely (f_cut <-> tau, kind, order)
+            f0 = SR * rng.choice([0.02, 0.2, 2])
+            ops.append(("SSetFilter", s, c, rng.choice(["HP", "LP"]), rng.choice([-1, 1, 2]),
+                        *rng.choice([(f0, None), (None, 1 / f0)])))
+            decl[str(c)] = (ops[-1][3], ops[-1][4], f0)
+        if str(c) in decl or rng.random() < 0.65:
             kind = rng.choice(["HP", "LP"])
             order = rng.choice([-2, -1, 1, 1, 2, 3])
             f = SR * rng.choice([1e-3, 0.01, 0.1, 0.5, 1, 3])
